@@ -636,6 +636,22 @@ func c03Mutators() []mutator {
 			b.Message.Body.SyncAggregate.SyncCommitteeSignature = [96]byte{0xc0}
 			return true
 		}},
+		mutator{"sync/no-participants-with-a-signature-that-is-not-infinity", false, func(m *mutCtx, b *refspec.SignedBlock) bool {
+			// eth_fast_aggregate_verify accepts an empty key list only together with the point at infinity
+			if m.pre.Fork < refspec.Altair {
+				return false
+			}
+			sa := &b.Message.Body.SyncAggregate
+			had := false
+			for i := range sa.SyncCommitteeBits {
+				had = had || sa.SyncCommitteeBits[i]
+				sa.SyncCommitteeBits[i] = false
+			}
+			if !had {
+				sa.SyncCommitteeSignature = b.Message.Body.RandaoReveal // any well-formed G2 point
+			}
+			return true
+		}},
 		mutator{"sync/signature-over-other-root", false, func(m *mutCtx, b *refspec.SignedBlock) bool {
 			if m.pre.Fork < refspec.Altair {
 				return false
